@@ -60,6 +60,8 @@ async def write(src: StreamWrapper, dst: StreamWrapper, bufsize: int) -> None:
             if isinstance(src, StreamWrapper)
             else src.read(bufsize)
         )
+        if len(buf) == 0:
+            raise tarfile.ReadError("unexpected end of data")
         bufsize -= len(buf)
         await dst.write(buf) if isinstance(dst, StreamWrapper) else dst.write(buf)
 
@@ -283,6 +285,8 @@ class FileStreamReaderWrapper(StreamWrapper):
         if data:
             await self.stream.seek(offset + (self.position - start))
             buf = await self.stream.read(length)
+            if len(buf) < length:
+                raise tarfile.ReadError("unexpected end of data")
             self.position += len(buf)
             return buf
         else:
@@ -1136,14 +1140,16 @@ class AioTarStream:
                     self._dbg(2, f"0x{self.offset:X}: {e}")
                     self.offset += tarfile.BLOCKSIZE
                     continue
-                elif self.offset == 0:
-                    raise tarfile.ReadError(str(e)) from None
+                # A stream is read exactly once: a corrupted header cannot
+                # be told apart from the end of the archive, so fail
+                raise tarfile.ReadError(str(e)) from None
             except tarfile.EmptyHeaderError:
                 if self.offset == 0:
                     raise tarfile.ReadError("empty file") from None
+                # The stream ended without the end-of-archive marker
+                raise tarfile.ReadError("unexpected end of data") from None
             except tarfile.TruncatedHeaderError as e:
-                if self.offset == 0:
-                    raise tarfile.ReadError(str(e)) from None
+                raise tarfile.ReadError(str(e)) from None
             except tarfile.SubsequentHeaderError as e:
                 raise tarfile.ReadError(str(e)) from None
             except Exception as e:
